@@ -148,7 +148,13 @@ def classes(st, E, rid):
     if o is None: return '?'
     return qx.operand_classes(st['ev'], E, qx.Env({'p': o}))
 
+LAZY_OPS = {'or': 'or', 'and': 'and', 'ifexp': 'if-else'}
 def expr_sig(st, M, rid):
+    o = st['pids'].get(rid)
+    if M.op in LAZY_OPS and o is not None and qx.dead_navigation(st['ev'], M, qx.Env({'p': o})):
+        # the row has a Python answer because the operand that navigates through a None reference is
+        # never evaluated; Pony joins the referenced table with an inner join and loses the row
+        return '%s: operand navigating through a None reference is not evaluated in Python, row lost by the inner join' % LAZY_OPS[M.op]
     return '%s [%s]' % (qx.op_skeleton(M), classes(st, M, rid))
 
 def still_fails(st, pos, E, fe, kind, template):
@@ -219,9 +225,14 @@ def attribute(sub, st, pos, q, fe, E, mm, template):
         else:
             sig = '%s: %s: %s' % (pos, '+'.join(kinds), qx.op_skeleton(M))
             if perrow and rid is not None:
-                cl = sorted(set(classes(st, M, r_) for _, r_ in todo if r_ is not None))
-                if len(cl) <= 3: sig += ' [%s]' % ' | '.join(cl)
-        sigs[sig] = (m, rid)
+                for m_, r_ in todo:
+                    if r_ is None: continue
+                    o = st['pids'].get(r_)
+                    if M.op in LAZY_OPS and o is not None and qx.dead_navigation(st['ev'], M, qx.Env({'p': o})): s_ = expr_sig(st, M, r_)
+                    else: s_ = '%s: %s: %s [%s]' % (pos, m_.kind, qx.op_skeleton(M), classes(st, M, r_))
+                    sigs.setdefault(s_, (m_, r_))
+                sig = None
+        if sig: sigs[sig] = (m, rid)
     for sig, (m, rid) in sorted(sigs.items()):
         c = dict(case, mismatch=repr(m), row=rid)
         sub.violation(sig, c, '%s  [%s] -> %r' % (q.source(fe), pos, m))
